@@ -11,12 +11,13 @@ From V.C05 Require Import Model.
 Import ListNotations.
 Local Open Scope N_scope.
 
-Definition B (h p ht q v r : N) : block := mkB h p ht q v r.
+Definition B (h p ht q v r : N) (ts : list N) : block := mkB h p ht q v r ts.
 
 (* head id; ids at heights 0,1,2,... (0 = none) from the height index; same via QueryBlock (height index
-   then hash index); verify-hash present per height; ids found in the hash index; marks; head state opens *)
+   then hash index); verify-hash present per height; ids found in the hash index; marks; head state opens;
+   transaction ids found in the pool's executed store *)
 Record obs := O { o_head : N; o_heights : list N; o_vh : list bool; o_hashes : list N;
-                  o_am : bool; o_rm : bool; o_open : bool }.
+                  o_am : bool; o_rm : bool; o_open : bool; o_exec : list N }.
 
 Inductive step :=
 | Dl (i : nat) (res : N) (wcls : list (N * N)) (o : obs)
@@ -34,6 +35,9 @@ Definition wclass (w : write) : option (N * N) :=
   | WPutV n _ => Some (9, n) | WDelV n => Some (10, n)
   | WCur b => Some (11, hash b)
   | WState _ => None
+  | WExec [] => None                       (* MarkExecuted with no receipts writes nothing *)
+  | WExec ts => Some (13, fold_left (fun a t => a * 32 + t) ts 0)
+  | WUnexec t => Some (14, t)
   end.
 
 Fixpoint classes (ws : list write) : list (N * N) :=
@@ -63,6 +67,8 @@ Fixpoint vh_ok (s : st) (n : N) (l : list bool) : bool :=
   | x :: r => Bool.eqb (is_some (vhash s n)) x && vh_ok s (n + 1) r
   end.
 
+Definition all_txs (blocks : list block) : list N := flat_map txs blocks.
+
 Definition obs_ok (blocks : list block) (s : st) (o : obs) : bool :=
   (id_of (cur s) =? o_head o)
   && heights_ok s 0 (o_heights o)
@@ -70,19 +76,20 @@ Definition obs_ok (blocks : list block) (s : st) (o : obs) : bool :=
   && forallb (fun b => Bool.eqb (is_some (byHash s (hash b))) (existsb (N.eqb (hash b)) (o_hashes o))) blocks
   && Bool.eqb (is_some (amark s)) (o_am o)
   && Bool.eqb (is_some (rmark s)) (o_rm o)
-  && Bool.eqb (head_openable s) (o_open o).
+  && Bool.eqb (head_openable s) (o_open o)
+  && forallb (fun t => Bool.eqb (exec s t) (existsb (N.eqb t) (o_exec o))) (all_txs blocks).
 
-Definition dummy : block := mkB 0 0 0 0 0 0.
+Definition dummy : block := mkB 0 0 0 0 0 0 [].
 Definition FUEL : nat := 40.
 
 (* the writes of the real call as the model predicts them (consensusVerify rejects -> none) *)
-Definition deliver_writes (fut : N -> option block) (s : st) (b : block) : list write :=
+Definition deliver_writes (v : vol) (s : st) (b : block) : list write :=
   match byHash s (pre b) with
   | None => []
-  | Some _ => if is_some (byHash s (hash b)) then [] else fst (fst (add_writes FUEL fut s b))
+  | Some _ => if is_some (byHash s (hash b)) then [] else fst (fst (fst (add_writes FUEL (fst v) (snd v) s b)))
   end.
 
-Fixpoint steps_ok (blocks : list block) (fut : N -> option block) (s : st) (l : list step) : bool :=
+Fixpoint steps_ok (blocks : list block) (fut : vol) (s : st) (l : list step) : bool :=
   match l with
   | [] => true
   | Dl i res wcls o :: r =>
@@ -100,6 +107,6 @@ Fixpoint steps_ok (blocks : list block) (fut : N -> option block) (s : st) (l : 
 Definition check (c : list block * list step) : bool :=
   let '(blocks, l) := c in
   match blocks with
-  | g :: _ => steps_ok blocks (fun _ => None) (st_of [g]) l
+  | g :: _ => steps_ok blocks (fun _ => None, fun _ => false) (st_of [g]) l
   | [] => false
   end.
